@@ -56,6 +56,8 @@ def leaf_classes():
             self.handles = frozenset(spec.get("keys", ()))
             self.nrows = max(1, int(spec.get("rows", 1)))
             self.mouse_rv = bool(spec.get("mouse", False))
+            self.act = spec.get("act")
+            self.acted = False
             if spec.get("cur") and self.sel:
                 # a leaf with a cursor (like an Edit): containers then take their cursor / preferred-column paths when
                 # the focus moves onto it.  "mc": False refuses the position it is offered.
@@ -117,6 +119,11 @@ def leaf_classes():
         def keypress(self, size, key):
             handled = key in self.handles
             self.run.leaf_event("key", self, tuple(size), key, handled)
+            if handled and self.act and not self.acted:
+                # the handler edits the container it sits in while the key is still being dispatched through that
+                # container (a row's "delete" button removes the row; "add" inserts one after it)
+                self.acted = True
+                self.run.leaf_action(self, self.act)
             return None if handled else key
 
         def mouse_event(self, size, event, button, col, row, focus):
@@ -257,6 +264,28 @@ class _Run:
 
     def leaf_event(self, kind, leaf, size, *detail) -> None:
         self.events.append((kind, leaf, size, detail, self.on_path(leaf)))
+
+    def leaf_action(self, leaf, act: str) -> None:
+        """A contents edit made from inside a leaf's key handler (re-entrant: the key is still travelling up)."""
+        node = next((n for n in walk_leaves(self.root) if n.base is leaf), None)
+        if node is None or node.parent is None or node.parent.kind not in LIST_KINDS or is_minimal(node.parent.base):
+            return
+        par = node.parent
+        b = par.base
+        L = b.body if par.kind == "ListBox" else b.contents
+        idx = par.kids.index(node)
+        if act == "remove_self":
+            del L[idx]
+            del par.kids[idx]
+        else:
+            new = self.build({"k": "leaf", "id": 500 + leaf.lid % 100, "sel": True, "keys": [], "rows": 1}, "flow")
+            new.parent = par
+            L.insert(idx + 1, new.w if par.kind == "ListBox" else (new.w, b.options()))
+            par.kids.insert(idx + 1, new)
+        self.reentrant_edits = getattr(self, "reentrant_edits", 0) + 1
+        self.res.fault("contents_edit_inside_key_handler")
+        self.log.add("reentrant", [leaf.lid, act, par.kind])
+        self.structure_changed()
 
     def on_path(self, leaf):
         """Is this leaf on the root's focus path right now (public API: get_focus_widgets)?"""
@@ -417,6 +446,9 @@ class _Run:
             def leaf_event(self, *a):
                 pass
 
+            def leaf_action(self, *a):
+                pass
+
         cols = self.size[0]
         try:
             for n in walk_containers(self.root):
@@ -469,6 +501,9 @@ class _Run:
             def leaf_event(self, kind, leaf, size, *detail):
                 if kind == "key":
                     self.got.append(leaf.lid)
+
+            def leaf_action(self, leaf, act):
+                pass
 
         sink = Sink()
         for n in walk_containers(self.root):
@@ -748,8 +783,13 @@ class _Run:
         arrow = key in ARROWS
         before = [(n, self.focus_state(n)[0]) for n in walk_containers(self.root)] if arrow else []
         fresh = self.replica_key_delivery(key) if key in PLAIN else None
+        edits0 = getattr(self, "reentrant_edits", 0)
         rv = rootw.keypress(self.size, key)
         self.user_steps += 1
+        if getattr(self, "reentrant_edits", 0) != edits0:
+            # a handler edited contents during this key: where the focus went is the edit's doing, not the arrow's
+            before = []
+            self.res.probe("contents_edited_inside_key_handler")
         evs = [e for e in self.events if e[0] == "key"]
         if fresh is not None:
             # Input follows the focus path: which leaf an unbound character is offered to is a function of the
@@ -1160,6 +1200,8 @@ class ContainersEngine(Engine):
         leaf = {"k": "leaf", "id": ctr[0], "sel": not dull and rng.random() < 0.65, "keys": keys, "rows": rng.choice([1, 1, 2, 3]), "mouse": rng.random() < 0.3}
         if leaf["sel"] and rng.random() < 0.3:
             leaf.update(cur=True, cx=rng.choice([0, 0, 2, 5]), mc=rng.random() < 0.8)
+        if leaf["sel"] and keys and rng.random() < 0.12:
+            leaf["act"] = rng.choice(["remove_self", "remove_self", "insert_after"])
         return leaf
 
     def gen_node(self, rng: random.Random, slot: str, depth: int, budget: list[int], ctr: list[int], must_be_container: bool = False, dull: bool = False) -> dict:  # noqa: C901, PLR0911, PLR0912
